@@ -1,9 +1,14 @@
 package harness
 
 import (
+	"crypto/tls"
 	"fmt"
+	"net"
+	"net/http"
 	"strings"
 	"time"
+
+	"github.com/gorilla/websocket"
 
 	"go.nanomsg.org/mangos/v3"
 	"go.nanomsg.org/mangos/v3/verifsim/simrt"
@@ -21,7 +26,13 @@ import (
 
 func c14Stream(w *W) {
 	kind := []string{"pair", "req", "sub", "bus", "push", "pull", "rep", "star", "surveyor"}[w.Choose(simrt.SShape, 9)]
-	tran := w.simFallback([]string{"sim", "simipc", "tcp", "ipc"}[w.Choose(simrt.SShape, 4)]) // tcp / ipc: the real dialer code on the simulated network
+	// tcp / ipc / tls+tcp / ws / wss: the real dialer code on the simulated
+	// network; over TLS the scripted peer fails before, during or after the TLS
+	// handshake, over WebSocket it refuses the upgrade with an HTTP status,
+	// hangs up in the middle of it, or upgrades and drops the connection later
+	tran := w.simFallback([]string{"sim", "simipc", "tcp", "ipc", "tls+tcp", "ws", "wss"}[w.Choose(simrt.SShape, 7)])
+	isTLS := tran == "tls+tcp" || tran == "wss"
+	isWS := tran == "ws" || tran == "wss"
 	r := []time.Duration{5 * time.Millisecond, 20 * time.Millisecond}[w.Choose(simrt.SShape, 2)]
 	M := []time.Duration{0, r, 4 * r}[w.Choose(simrt.SShape, 3)]
 	nplan := 2 + w.Choose(simrt.SShape, 6)
@@ -96,6 +107,10 @@ func c14Stream(w *W) {
 			w.Fault("hs-" + st.what)
 			w.Go("scripted peer", func() {
 				h := wcHeader(peerProto)
+				if isTLS || isWS {
+					c14ScriptedSecure(w, c, st.what, st.n, st.hold, isTLS, isWS, peerProto, func() { a.overAt = w.Now() })
+					return
+				}
 				switch st.what {
 				case "hangup":
 					c.Write(h[:st.n])
@@ -140,8 +155,8 @@ func c14Stream(w *W) {
 			attached++
 		}
 	})
-	d, err := s.NewDialer(daddr, map[string]interface{}{
-		mangos.OptionReconnectTime: r, mangos.OptionMaxReconnectTime: M, mangos.OptionDialAsynch: true})
+	d, err := s.NewDialer(daddr, w.EpOpts(daddr, false, map[string]interface{}{
+		mangos.OptionReconnectTime: r, mangos.OptionMaxReconnectTime: M, mangos.OptionDialAsynch: true}))
 	if err != nil {
 		s.Close()
 		w.Failf("HARNESS/newdialer", "%v", err)
@@ -323,4 +338,129 @@ func c14Inproc(w *W) {
 
 func init() {
 	register(&Scenario{Name: "dialer-reconnect-inproc", Prop: "C14", Horizon: time.Hour, Weight: 1, Run: c14Inproc})
+}
+
+// oneConnListener hands one already accepted connection to an http.Server.
+type oneConnListener struct {
+	c    net.Conn
+	done chan struct{}
+	used bool
+}
+
+func (l *oneConnListener) Accept() (net.Conn, error) {
+	if !l.used {
+		l.used = true
+		return l.c, nil
+	}
+	<-l.done
+	return nil, net.ErrClosed
+}
+func (l *oneConnListener) Close() error {
+	select {
+	case <-l.done:
+	default:
+		close(l.done)
+	}
+	return nil
+}
+func (l *oneConnListener) Addr() net.Addr { return l.c.LocalAddr() }
+
+// c14ScriptedSecure: one scripted attempt over tls+tcp, ws or wss. Steps that
+// end the connection below the TLS / HTTP layer (hangup, reset, garbage,
+// stall-then-fin) act on the raw connection; the others first do what a real
+// peer would (TLS handshake as the server, HTTP upgrade) and fail later.
+func c14ScriptedSecure(w *W, raw *NetConn, what string, n int, hold time.Duration, isTLS, isWS bool, peerProto uint16, over func()) {
+	switch what {
+	case "hangup":
+		raw.Write(wireBody(n, n))
+		raw.Close()
+		over()
+		return
+	case "reset":
+		raw.Write(wireBody(n%8, n))
+		raw.Reset()
+		over()
+		return
+	case "garbage":
+		raw.Write(wireBody(n, n))
+		simrt.Sleep(time.Millisecond)
+		raw.Close()
+		over()
+		return
+	case "stall-then-fin":
+		simrt.Sleep(hold)
+		raw.Close()
+		over()
+		return
+	}
+	var c net.Conn = raw
+	if isTLS {
+		srv, _ := simTLS()
+		tc := tls.Server(raw, srv)
+		if err := tc.Handshake(); err != nil {
+			w.Op("scripted TLS handshake failed: %v", err)
+			raw.Close()
+			over()
+			return
+		}
+		c = tc
+	}
+	finish := func() {
+		if what == "ok-then-reset" {
+			raw.Reset()
+		} else {
+			c.Close()
+		}
+		over()
+	}
+	if !isWS {
+		// tls+tcp: the SP handshake inside the TLS session
+		switch what {
+		case "wrong-protocol":
+			c.Write(wcHeader(0x7777))
+			over()
+		case "ok-then-fin", "ok-then-reset":
+			c.Write(wcHeader(peerProto))
+			wcReadHeader(c)
+			simrt.Sleep(hold)
+			finish()
+		case "ok":
+			c.Write(wcHeader(peerProto))
+			wcReadHeader(c)
+		}
+		return
+	}
+	// ws / wss: an HTTP server for this one connection
+	ln := &oneConnListener{c: c, done: make(chan struct{})}
+	up := websocket.Upgrader{CheckOrigin: func(*http.Request) bool { return true }}
+	srv := &http.Server{Handler: http.HandlerFunc(func(rw http.ResponseWriter, r *http.Request) {
+		if what == "wrong-protocol" {
+			// what a listener of another pattern answers
+			http.Error(rw, "SP protocol mis-match", []int{http.StatusBadRequest, http.StatusForbidden, http.StatusNotFound}[n%3])
+			return
+		}
+		up.Subprotocols = websocket.Subprotocols(r)
+		wc, err := up.Upgrade(rw, r, nil)
+		if err != nil {
+			w.Op("scripted upgrade failed: %v", err)
+			return
+		}
+		if what == "ok" {
+			return // stays up (the connection is hijacked: returning does not close it)
+		}
+		simrt.Sleep(hold)
+		if what == "ok-then-reset" {
+			raw.Reset()
+		} else {
+			wc.Close()
+		}
+		over()
+	})}
+	w.Go("scripted http server", func() { _ = srv.Serve(ln) })
+	if what == "wrong-protocol" {
+		// the answer is on its way; the attempt is over once the dialer has seen it
+		simrt.Sleep(2 * time.Millisecond)
+		over()
+		srv.Close()
+	}
 }
